@@ -130,7 +130,7 @@ class TraveltimeGrid2D(BaseGrid2D, BaseTraveltime):
             nz, nx = self.shape
             dz, dx = self._gridsize
             max_dist = 2.0 * ((nz * dz) ** 2 + (nx * dx) ** 2) ** 0.5
-            max_step = int(max_dist / stepsize)
+            max_step = max(int(max_dist / stepsize), 2)
 
         return ray2d(
             self.zaxis,
@@ -248,7 +248,7 @@ class TraveltimeGrid3D(BaseGrid3D, BaseTraveltime):
             nz, nx, ny = self.shape
             dz, dx, dy = self._gridsize
             max_dist = 2.0 * ((nz * dz) ** 2 + (nx * dx) ** 2 + (ny * dy) ** 2) ** 0.5
-            max_step = int(max_dist / stepsize)
+            max_step = max(int(max_dist / stepsize), 2)
 
         return ray3d(
             self.zaxis,
